@@ -5,7 +5,12 @@
 //! - Conversions between systems
 //! - Conversions to the best fit possible
 
+#[cfg(not(feature = "verif_hooks"))]
 use std::{collections::HashMap, ops::RangeInclusive, sync::Arc};
+#[cfg(feature = "verif_hooks")]
+use std::{ops::RangeInclusive, sync::Arc};
+#[cfg(feature = "verif_hooks")]
+use crate::verif_seam::HashMap;
 
 use enum_map::EnumMap;
 use serde::{Deserialize, Serialize};
